@@ -29,5 +29,9 @@ mutants)
     props=$(python3 -c "import json,sys; m=json.load(open('$d/meta.json')); print(' '.join(sorted({x.split()[2] for x in m.get('checks_quick_results',[]) if x.startswith('MUTANT')})))")
     SKIP_TESTS=1 ./mutant.sh "$d/patch.diff" $props | sed "s|patch.diff|$(basename $d)|"
   done;;
-*) echo "usage: $0 determinism [runs] | mutants"; exit 2;;
+benign)
+  # behaviour-preserving refactors written by sub-agents: every check must stay silent
+  mkdir -p /tmp/mutant-verif; cp /verif/known_findings.json /tmp/mutant-verif/
+  for d in /verif/benign/*/; do ./benign.sh "$d/patch.diff" | grep BENIGN; done;;
+*) echo "usage: $0 determinism [runs] | mutants | benign"; exit 2;;
 esac
